@@ -1746,7 +1746,7 @@ class World:
         'image_unknown_var_late', 'add_var_new_at_used_level',
         'copy_vars_conflict', 'load_pickle_level_conflict',
         'undeclare_mixed_unknown', 'undeclare_unused_then_used',
-        'gc_roots_unknown_node',
+        'gc_roots_unknown_node', 'recursion_limit',
     ]
 
     def op_full(self, a, b):
@@ -2040,6 +2040,41 @@ class World:
         roots = zeros[:1 + a % 3] + [missing] if b % 2 else \
             [missing] + zeros[:1 + a % 3]
         self.b.collect_garbage(roots)
+
+    def _bad_recursion_limit(self, a, b):
+        """The interpreter's recursion limit is reached somewhere inside
+        an operation (RecursionError)."""
+        import sys
+        import inspect
+        x, y, z = self._u(a), self._u(b), self._u(a + b)
+        if self.order and a % 2:
+            # a long chain: the conjunction of all declared variables
+            x = self.api.cube({v_: bool((b >> l_) & 1) or True
+                               for l_, v_ in enumerate(self.order)})
+        depth = len(inspect.stack(0))
+        old = sys.getrecursionlimit()
+        # every depth at which the error can land, one after the other
+        # (a failed attempt must leave the manager usable for the next)
+        # (as for `max_nodes`: not while a reordering can be triggered,
+        # a level swap that is interrupted half-way is the open finding
+        # `max-nodes-reached-during-swap`)
+        if self.reordering:
+            self.label('excluded.recursion_limit_with_reordering_on')
+        hit = 0
+        with self.quiet():
+            for off in range(6, 46):
+                sys.setrecursionlimit(depth + off)
+                try:
+                    r = self.api.ite(x, y, z)
+                    r = self.api.apply('xor', r, x)
+                    r = None
+                except RecursionError:
+                    hit += 1
+                finally:
+                    sys.setrecursionlimit(old)
+        if hit:
+            self.label('recursion_limit.hit', hit)
+            raise RecursionError('n/a')
 
     def _bad_undeclare_unknown(self, a, b):
         self.b.undeclare_vars('zz_undeclared')
